@@ -19,8 +19,12 @@ From Sekai Require Import Base.Prelude.
 
 Definition addr := Z.
 Definition sigv := Z.
-Inductive pkey := Secp (k : Z) | Ed (k : Z).
-Inductive mode := MDirect | MAmino | MOther.      (* MOther: any mode the handler does not know *)
+(* Multi: a LegacyAminoPubKey (k-of-n multisig over secp256k1 keys) *)
+Inductive pkey := Secp (k : Z) | Ed (k : Z) | Multi (k : Z).
+(* sign mode of a SingleSignatureData (MOther: any mode the handler does not know), or a
+   MultiSignatureData whose member signatures all use DIRECT / LEGACY_AMINO_JSON *)
+Inductive mode := MDirect | MAmino | MOther | MMultiDirect | MMultiAmino.
+Definition is_multi (m : mode) : bool := match m with MMultiDirect | MMultiAmino => true | _ => false end.
 
 Record account := mkAcc { a_pub : option pkey; a_seq : Z; a_num : Z }.
 Definition state := list (addr * account).
@@ -128,17 +132,20 @@ Fixpoint set_pubkeys (s : state) (sg : list addr) (sl : list slot) {struct sl} :
   end.
 
 (* ---- SigGasConsumeDecorator with DefaultSigVerificationGasConsumer *)
-Definition key_supported (k : pkey) : bool := match k with Secp _ => true | Ed _ => false end.
+Definition key_supported (k : pkey) : bool := match k with Secp _ | Multi _ => true | Ed _ => false end.
+Definition is_multi_key (k : pkey) : bool := match k with Multi _ => true | _ => false end.
 Fixpoint sig_gas (s : state) (sg : list addr) (sl : list slot) {struct sl} : outcome unit :=
   match sl, sg with
   | [], _ => Ok tt
-  | _ :: sl', a :: sg' =>
+  | x :: sl', a :: sg' =>
       match get_acc s a with
       | None => Err "unknown account"
       | Some acc =>
           match a_pub acc with
           | None => Err "pubkey not set"
-          | Some k => if key_supported k then sig_gas s sg' sl' else Err "unsupported key type"
+          | Some k => if negb (key_supported k) then Err "unsupported key type"
+                      else if is_multi_key k && negb (is_multi (s_mode x)) then Err "expected MultiSignatureData"
+                      else sig_gas s sg' sl'
           end
       end
   | _ :: _, [] => Panic "index out of range"
@@ -153,7 +160,8 @@ Definition doc_of (c : ctxt) (t : tx) (x : slot) (acc : account) : signdoc :=
 Definition sign_bytes_outcome (m : mode) (t : tx) : outcome unit :=
   match m with
   | MDirect => Ok tt
-  | MAmino => if existsb is_eth_msg (t_msgs t) then Panic "MsgEthereumTx.GetSignBytes" else Ok tt
+  | MAmino | MMultiAmino => if existsb is_eth_msg (t_msgs t) then Panic "MsgEthereumTx.GetSignBytes" else Ok tt
+  | MMultiDirect => Ok tt
   | MOther => Err "unsupported sign mode"
   end.
 
@@ -179,6 +187,7 @@ Definition eth_prepare (v : variant) (t : tx) (a : addr) (acc : account) (x : sl
   end.
 
 Definition eth_verify (v : variant) (t : tx) (a : addr) (acc : account) (x : slot) (doc : signdoc) : outcome unit :=
+  if is_multi (s_mode x) then Err "unexpected SignatureData" else
   do _ <- sign_bytes_outcome (s_mode x) t;
   match eth_prepare v t a acc x doc with
   | EDone r => r
@@ -212,6 +221,7 @@ Fixpoint sig_verify_loop (v : variant) (c : ctxt) (s : state) (t : tx) (sg : lis
                   | Err e => Err e
                   | Panic p => Panic p
                   end
+                else if is_multi (s_mode x) && negb (is_multi_key k) then Err "expected multisig.PubKey"
                 else
                   do _ <- sign_bytes_outcome (s_mode x) t;
                   if verify k doc (s_sig x) then sig_verify_loop v c s t sg' sl'
